@@ -1,7 +1,7 @@
 """C06 - formatting refreshes link titles and never retargets or rewrites a link."""
 from vlib import factbase as fb
 from vlib import q
-from .common import pname, ctx, loc, match_arms_on, strip_refs
+from .common import pname, ctx, loc, match_arms_on, strip_refs, known_call, facts_at
 from . import c05
 
 TITLE_LOOKUPS = ("InlinesContext::get_ref_title", "GraphContext::get_ref_text", "Graph::get_key_title")
@@ -133,15 +133,12 @@ def rule_r2(facts, rep, rid="C06-R2"):
                     else:
                         rep.violation(rid, "%s|arm:%s|identity" % (f.def_, "/".join(vs)), "images / other inlines are rewritten by normalize: %s" % s[:100], "%s:%s" % (f.file, arm.get("ln")))
     # non-reference links: the !is_ref() edge returns self.clone()
-    isref_guard = False
-    for x in fb.walk(f.body):
-        if x.get("k") == "if" and any((fb.callee(y) or "").endswith("GraphInline::is_ref") for y in fb.calls_in(x["c"])):
-            isref_guard = True
-            inner = [y for y in fb.calls_in(x["t"]) if y.get("ctor") and (fb.callee(y) or "").endswith("GraphInline::Link")]
-            if ctor and not inner:
-                rep.violation(rid, f.def_ + "|rewrite-only-under-is_ref", "the link is rebuilt outside the is_ref() branch: external urls would get note titles", loc(f, x))
-    if isref_guard:
-        rep.ok(rid, f.def_ + "|rewrite-only-under-is_ref", "rebuilt only on the is_ref() edge", f.loc)
+    # the Link constructor is evaluated only where is_ref() is known to be true (then-branch, else of the negation, after an early return ...)
+    unguarded = [y for y in ctor if known_call(c, y, "GraphInline::is_ref") is not True]
+    if ctor and not unguarded:
+        rep.ok(rid, f.def_ + "|rewrite-only-under-is_ref", "rebuilt only where is_ref() holds", f.loc)
+    elif ctor:
+        rep.violation(rid, f.def_ + "|rewrite-only-under-is_ref", "the link is rebuilt where is_ref() is not known to hold: external urls would get note titles", loc(f, unguarded[0]))
     else:
         rep.violation(rid, f.def_ + "|rewrite-only-under-is_ref", "no is_ref() guard in normalize", f.loc)
 
